@@ -14,9 +14,9 @@ import (
 	"golang.org/x/tools/go/ssa"
 )
 
-func c12Classifier(c *Ctx, pr *PropertyRun) {
+func c12Classifier(c *Ctx, pr *PropertyRun, prop string) {
 	p := c.P
-	r := NewRule("C12", "C12.classifier", "the level classifier computes: clean the path, take the prefix off, make it start with a slash; \"/\" is the root, otherwise the level is the number of slash-separated segments below the prefix (E2, path.Clean / TrimPrefix / Split uninterpreted)")
+	r := NewRule(prop, prop+".classifier", "the level classifier computes: clean the path, take the prefix off, make it start with a slash; \"/\" is the root, otherwise the level is the number of slash-separated segments below the prefix (E2, path.Clean / TrimPrefix / Split uninterpreted)")
 	r.Exhaustive = true
 	pr.Rules = append(pr.Rules, r)
 	for _, pkg := range []string{pkgCaldav, pkgCarddav} {
